@@ -132,6 +132,22 @@ def _class_method_nodes(repo, modname, cls):
     return out
 
 
+_FOREIGN = {}
+
+
+def _foreign_attr_loads(repo):
+    """attribute names loaded from objects other than self/new anywhere in the package"""
+    key = id(repo)
+    if key not in _FOREIGN:
+        out = set()
+        for mm in repo.modules.values():
+            for n in ast.walk(mm.tree):
+                if isinstance(n, ast.Attribute) and isinstance(n.ctx, ast.Load) and not (isinstance(n.value, ast.Name) and n.value.id in ("self", "new")):
+                    out.add(n.attr)
+        _FOREIGN[key] = out
+    return _FOREIGN[key]
+
+
 def rule_r1(chk):
     chk.rule("C20-R1", "for each model/variant class: slots read by any method are assigned by copy() (or copy is deepcopy); a slot that "
              "copy() shares by reference is immutable by construction or is never mutated through the owner after construction", floor=20)
@@ -150,6 +166,8 @@ def rule_r1(chk):
             if q.endswith(".copy") or q.endswith(".__init__"):
                 continue
             read |= _self_loads(node) & set(slots)
+        # a slot is also "read" when any code in the package loads an attribute of that name from some object
+        read |= {a for a in slots if a in _foreign_attr_loads(chk.repo) and not a.startswith("__")}
         for s in slots:
             st = facts.get(s)
             construct = f"{short}.{cls}.copy[{s}]"
